@@ -18,3 +18,5 @@ pub mod affine;
 pub mod impl_affineformat;
 pub mod impl_ops;
 pub mod polyhedron;
+#[cfg(affinitree_verif)]
+pub mod verif;
